@@ -411,6 +411,16 @@ func c03Storm(c *lab.Ctx) {
 		}
 	})
 	defer verifhook.Set("http.pool.request.dec", nil)
+	// second injected delay: the goroutine that reports an upstream reset is descheduled for 3 ms between raising the reset flag and
+	// notifying the proxy goroutine - if that goroutine is between two phases of sending the request it notices the flag by itself,
+	// sets up the retry, and the notification arrives afterwards, when its event has already been handled
+	var rn int64
+	verifhook.Set("proxy.upstream.OnResetStream.flagged", func(string, uint64) {
+		if atomic.AddInt64(&rn, 1)%2 == 0 {
+			time.Sleep(3 * time.Millisecond)
+		}
+	})
+	defer verifhook.Set("proxy.upstream.OnResetStream.flagged", nil)
 	rng := c.Rand("storm")
 	plans := []string{"close|ok", "rst|rst|ok", "half|ok", "stall|ok", "close|close|ok", "s503|close|ok", "close|stall", "half|half|ok", "rst|ok"}
 	per := c.Pick(60, 400)
